@@ -652,7 +652,7 @@ def replay(ctx, verdict):
 
 
 MANIFEST = dict(
-    technique='Coq proofs about a hand-written byte-level model of obfuscate/deobfuscate with real ciphers written in Gallina (generic encrypt-then-MAC round trip proved once, instantiated for AES-GCM and ChaCha20-Poly1305); model tied to the code by differential execution in both directions (Go encodes -> extracted model decodes and re-encodes bit-identically; model encodes -> Go decodes), primitives compared with Go on every run; Go-only exhaustive length sweep; independent Python header decoder',
-    level_text='C04_roundtrip, C04_size_limit, C04_layout, C04_interop, C04_padding_threshold and extra_len_fits_byte are proved in Coq for all four methods, every key, every stream id < 2^32, sequence number < 2^64, closing < 256, every non-empty payload of any length, every admissible padding length and all random bytes (no bound); the size-limit and byte-fit theorems are proved about the constants regenerated from /repo. The extracted model is the independent implementation of the Cloak-v2 layout that the property asks for: on every run it decodes and bit-identically re-encodes what the real obfuscate emits (both buffer placements) and its own encodings are decoded by the real deobfuscate.',
+    technique='Coq proofs about a hand-written byte-level model of obfuscate/deobfuscate with real ciphers written in Gallina (generic encrypt-then-MAC round trip proved once, instantiated for AES-GCM and ChaCha20-Poly1305); model tied to the code by differential execution in both directions (Go encodes -> extracted model decodes and re-encodes bit-identically; model encodes -> Go decodes), primitives compared with Go on every run; Go-only exhaustive length sweep; independent Python header decoder; the derivation of the per-frame payload maximum and of the buffer sizes from the CONFIGURED MsgOnWireSizeLimit is part of the model (Model/SessionLimit.v: MakeSession, Stream.Write ordered/unordered, ReadFrom, closing notices) and is compared on every run with real Sessions built through MakeSession for a family of configured limits (the value the commands configure, the default, small and boundary values), traffic of 1x..3x the payload maximum through a harness-owned connection pair, every on-wire message judged against the configured limit and delivery checked at the peer session',
+    level_text='C04_roundtrip, C04_size_limit, C04_layout, C04_interop, C04_padding_threshold and extra_len_fits_byte are proved in Coq for all four methods, every key, every stream id < 2^32, sequence number < 2^64, closing < 256, every non-empty payload of any length, every admissible padding length and all random bytes (no bound); the size-limit and byte-fit theorems are proved about the constants regenerated from /repo. C04_session_write_within_limit / _read_from_ / _closing_within_limit: for EVERY configured limit (any Go int; <= 0 selects the default), both modes, every method, key, input, padding draw and sequence number, every message a Session puts on the wire is at most the limit in force; C04_session_write_complete: above 269 a Write is accepted whole and its messages decode to the consecutive chunks of the input; C04_session_limit_below_overhead / _equal_overhead: what the code does for limits that carry no frame (panic / refused empty frame, nothing on the wire); C04_session_limits_in_use: the sizes a real MakeSession reported to the generator equal the derived ones. The extracted model is the independent implementation of the Cloak-v2 layout that the property asks for: on every run it decodes and bit-identically re-encodes what the real obfuscate emits (both buffer placements) and its own encodings are decoded by the real deobfuscate.',
     level_note='Trusted: Coq kernel, extraction, the hand-written model (sampled correspondence), Go crypto libraries only as comparison targets. Near-maximum payloads are sampled (the Gallina ciphers cost ~0.25 s per 16 KiB pass); the Go-only sweep covers every length exhaustively.',
     design_ref='DESIGN.md section 6, C04')
